@@ -258,6 +258,32 @@ Section WithDigest.
     if negb (forallb (fun pa => has (fst pa) fs) missed) then (inl 2, db) else
     (inr (map (answer_of fs alg) looked), fold_left (save_miss local fs alg infos) missed db).
 
+  (* A write DURING a staging query: the file [wp] is rewritten (to [fnew]) after it has been read for
+     hashing and before state.save_many records the rows.  Which stat information keys the saved row?
+       AtWalk  the info collected by the walk BEFORE the hashing (what _get_hashes does: the items handed
+               to save_many carry infos[path], and save_many uses `info or fs.info(path)`)
+       AtSave  a fresh fs.info(path) at save time (the row would pair the OLD digest with the NEW token)
+     Files are read in [fs]; [fs'] = [fs] with [wp] rewritten is what a stat at save time sees. *)
+  Inductive savetok := AtWalk | AtSave.
+
+  Definition save_miss_at (m : savetok) (local : bool) (fs fs' : fsview) (alg : name)
+             (infos : list (path * token)) (db : statedb) (pa : path * option hashinfo) : statedb :=
+    match lookup (fst pa) fs,
+          match m with AtWalk => lookup (fst pa) infos | AtSave => fs_info fs' (fst pa) end with
+    | Some f, Some i => st_save db local (fst pa) (alg, H alg (f_bytes f)) i
+    | _, _ => db
+    end.
+
+  Definition get_hashes_during (m : savetok) (db : statedb) (local : bool) (fs : fsview) (ps : list path)
+             (alg : name) (infos : list (path * token)) (wp : path) (fnew : file)
+    : (N + list (path * oid)) * statedb :=
+    if negb (forallb (fun p => has p infos) ps) then (inl 8, db) else
+    let looked := st_get_many db local fs ps infos in
+    let missed := filter (miss alg) looked in
+    if negb (forallb (fun pa => has (fst pa) fs) missed) then (inl 2, db) else
+    let fs' := set wp fnew fs in
+    (inr (map (answer_of fs alg) looked), fold_left (save_miss_at m local fs fs' alg infos) missed db).
+
   (* ---------------------------------------------------------------- index level *)
   (* Meta: the attrs that take part in ==  (remote, is_link, destination, nlink are eq=False) *)
   Record meta := { m_isdir : bool; m_size : option N; m_nfiles : option N; m_isexec : bool;
@@ -410,6 +436,9 @@ Section WithDigest.
   | QGetMany (local : bool) (ps : list path) (infos : list (path * token))     (* state.get_many *)
   | QHashFile (local : bool) (p : path) (alg : name) (info : option token)     (* hash_file *)
   | QGetHashes (local : bool) (ps : list path) (alg : name) (infos : list (path * token))  (* staging *)
+  (* staging with a write DURING the query: [wp] is rewritten to (b, t) after the hashing, before save_many *)
+  | QGetHashesW (local : bool) (ps : list path) (alg : name) (infos : list (path * token))
+                (wp : path) (b : bytes) (t : token)
   (* index level: two index variables *)
   | IBuild (s : slot)                              (* s = index.build(root, localfs) *)
   | IMd5 (s : slot) (alg : name)                   (* s = index.md5(s, state, name=alg) *)
@@ -422,6 +451,7 @@ Section WithDigest.
   | OMany (local : bool) (l : list (path * option hashinfo))
   | OHash (local : bool) (p : path) (alg : name) (v : option oid)
   | OHashes (local : bool) (alg : name) (l : list (path * oid))
+  | OHashesDuring (local : bool) (alg : name) (l : list (path * oid)) (wp : path)   (* [wp] was rewritten meanwhile *)
   | OMd5 (alg : name) (i : index)
   | OIndex (i : index).
 
@@ -472,6 +502,11 @@ Section WithDigest.
     | QGetHashes local ps alg infos =>
         let r := get_hashes (w_db w) local (the_fs w local) ps alg infos in
         (with_db w (snd r), match fst r with inl k => OErr k | inr l => OHashes local alg l end)
+    | QGetHashesW local ps alg infos wp b t =>
+        let fnew := {| f_tok := t; f_bytes := b |} in
+        let r := get_hashes_during AtWalk (w_db w) local (the_fs w local) ps alg infos wp fnew in
+        (with_fs (with_db w (snd r)) (set wp fnew (w_fs w)),
+         match fst r with inl k => OErr k | inr l => OHashesDuring local alg l wp end)
     | IBuild s => let i := idx_build (w_fs w) in (with_slot w s i, OIndex i)
     | IMd5 s alg =>
         let r := idx_md5 (w_db w) (w_fs w) (get_slot w s) alg in
@@ -531,6 +566,11 @@ Section WithDigest.
          match lookup p (w_fs w) with Some f => list_N_eqb (snd hi) (H (fst hi) (f_bytes f)) | None => true end)
     | QGet local p info | QHashFile local p _ info => negb local || info_current_b (w_fs w) p info
     | QGetMany local _ infos | QGetHashes local _ _ infos => negb local || infos_current_b (w_fs w) infos
+    | QGetHashesW local ps alg infos wp _ t =>
+        (* the walk-time infos are current when collected; the write's token is new also with respect to the
+           rows the query records (they carry the walk-time tokens) *)
+        (negb local || infos_current_b (w_fs w) infos) &&
+        fresh_b (with_db w (snd (get_hashes (w_db w) local (the_fs w local) ps alg infos))) wp t
     | IBuild _ | IMd5 _ _ | IUpdate _ => true
     end.
 
@@ -572,6 +612,7 @@ Section WithDigest.
     | OMany _ l => VL [VN 2; VN (N.of_nat (length l)); VL (hits_from 0 l)]
     | OHash _ _ _ v => VL [VN 3; enc_option VB v]
     | OHashes _ _ l => VL [VN 4; VL (map (fun pv => VB (snd pv)) l)]
+    | OHashesDuring _ _ l _ => VL [VN 4; VL (map (fun pv => VB (snd pv)) l)]
     | OMd5 _ i => VL [VN 5; enc_index i]
     | OIndex i => VL [VN 5; enc_index i]
     end.
